@@ -3,7 +3,7 @@
    finding, proved here as _refuted with a concrete witness. What does hold universally is proved as _partial:
    the hierarchy invariant for every role table that does not spawn from inside an actor's own OnTerminated handler
    (exactly the behaviour of the second finding) and does not claim a system address. *)
-From MV Require Import Lib.ListX Kernel.Model Kernel.Run Kernel.Lifecycle Kernel.Hierarchy Kernel.Queue Kernel.Shutdown.
+From MV Require Import Lib.ListX Kernel.Model Kernel.Run Kernel.Lifecycle Kernel.Hierarchy Kernel.Queue Kernel.Shutdown Kernel.Watch Kernel.Directive Kernel.Descend.
 Open Scope Z_scope.
 
 Definition quiescent (s : kstate) : Prop := forall a, In a (actors s) -> a_inflight a = None.
@@ -136,6 +136,42 @@ Proof.
   split.
   - intros ro ru t r [<-|[<-|[]]] Hru Hact; cbn in Hru; [|destruct Hru]. destruct Hru as [<-|[]]. cbn in Hact. destruct Hact as [E|[]]. inversion E; subst. split; [lia|discriminate].
   - repeat constructor; cbn; lia.
+Qed.
+
+(* "Terminating an actor terminates all of its descendants", one level at a time — for every role table and from ANY state: the
+   step in which a living or restarting actor object takes a terminate request out of its mailbox hands a terminate request to
+   the object registered under the address of EVERY child it had when the step began (the OnTerminate handler runs first and may
+   spawn more children, which are told as well, but cannot remove one): when neither the request nor the actor is graceful, one
+   more non-graceful terminate request from the parent in the child's mailbox (system queue); otherwise one more graceful
+   request at the tail of the child's user messages. With C04_stop_request_makes_receiver_terminating and
+   C05_hierarchical_partial (a registered child has a registered, older parent that lists it) this goes down the tree level by
+   level: every descendant that is still registered when its parent takes the request is told. *)
+Theorem C05_terminate_request_reaches_every_child : forall roles s v b e g s' o,
+  get s v = Some b -> a_inflight b = Some (MS e) -> e_msg e = STerminate g -> (a_st b = Alive \/ a_st b = Restarting) ->
+  kstep roles s (LRun (Z.of_nat v)) = Some (s', o) ->
+  forall c w, In c (a_children b) -> lookup c (registry s) = Some w -> w <> v ->
+    if g || a_graceful b then ugains (is_gterm c) w s s' else gains (carries DStop (a_tok b) c) w s s'.
+Proof. exact terminate_reaches_children. Qed.
+Print Assumptions C05_terminate_request_reaches_every_child.
+
+(* non-vacuity: actor 0 (object 2) with children 1 and 2 (objects 3, 4) takes a non-graceful terminate request: both children
+   have the request from 0 in their mailboxes afterwards *)
+Definition c05_desc_roles : list role :=
+  [ {| victim := None; sup := [DStop]; rules := [ {| r_on := KL; r_n := -1; r_inst := -1; r_do := [ASpawn 1 1; ASpawn 2 1] |} ] |};
+    {| victim := None; sup := []; rules := [] |} ].
+Example C05_terminate_reaches_children_example :
+  exists s os b e s' o c3 c4,
+    krun c05_desc_roles kinit [LSpawn 0 0; LRun 2; LRun 3; LRun 4; LTerm 0 false] = Some (s, os) /\
+    get s 2%nat = Some b /\ a_inflight b = Some (MS e) /\ e_msg e = STerminate false /\ a_st b = Alive /\ a_children b = [1; 2] /\
+    lookup 1 (registry s) = Some 3%nat /\ lookup 2 (registry s) = Some 4%nat /\
+    kstep c05_desc_roles s (LRun 2) = Some (s', o) /\ get s' 3%nat = Some c3 /\ get s' 4%nat = Some c4 /\
+    cnt (carries DStop 0 1) c3 = 1%nat /\ cnt (carries DStop 0 2) c4 = 1%nat.
+Proof.
+  eexists. eexists. eexists. eexists. eexists. eexists. eexists. eexists.
+  split; [vm_compute; reflexivity|]. split; [vm_compute; reflexivity|]. split; [vm_compute; reflexivity|].
+  split; [vm_compute; reflexivity|]. split; [vm_compute; reflexivity|]. split; [vm_compute; reflexivity|].
+  split; [vm_compute; reflexivity|]. split; [vm_compute; reflexivity|]. split; [vm_compute; reflexivity|].
+  split; [vm_compute; reflexivity|]. split; [vm_compute; reflexivity|]. split; vm_compute; reflexivity.
 Qed.
 
 (* GRACEFUL TERMINATE ("lets the target first handle every user message that was enqueued before the request"):
